@@ -4,6 +4,7 @@ import (
 	"context"
 	"fmt"
 	"sync"
+	"syscall"
 	"time"
 
 	"github.com/superfly/litefs"
@@ -292,4 +293,197 @@ func c11HaltRace(r *Run) {
 	ok, st := db.CanLock(ctx, stranger, []litefs.LockType{litefs.LockTypePending, litefs.LockTypeReserved, litefs.LockTypeShared})
 	r.Check(ok, "c11.halt-leak", "every halt lock was released or has expired and was swept, yet the database's locks are still held (%v)", st)
 	r.State("halt/%d/%v/%v/%d/%d", nHolders, atomicSeam, mutexSeam, stalls, min(r.Stats["c11.halt.held-past-expiry"], 3))
+}
+
+// c11HotJournalRace: a write transaction of an application dies half-way (its
+// page writes start to fail with an I/O error after the first ones went
+// through, so its own rollback fails too): the database file is modified, the
+// journal is hot and nobody holds a lock - the state a crashed writer leaves.
+// SQLite's rule for everybody who comes next: take SHARED, look for a hot
+// journal (it exists, nobody holds RESERVED, its header is valid), roll it back
+// under EXCLUSIVE taken WITHOUT the intermediate RESERVED lock - "if it were,
+// another process might open the database file, detect the RESERVED lock, and
+// conclude that the database is safe to read while this process is still
+// rolling the hot-journal back" (pager.c). LiteFS's internal writer is such a
+// process: remote halt-lock requests and its own recovery take the write lock
+// (retrying while connections hold locks) and roll the journal back. Readers and
+// those internal attempts are tasks of the seeded scheduler, with every change
+// of one of the database's locks a scheduling point. Oracle: a reader that gets
+// data gets the committed image (the one before the dead transaction); it may
+// be refused (BUSY) but never reads the dead transaction's pages.
+func c11HotJournalRace(r *Run) {
+	t := r.Tape
+	n := newStaticPrimary(r, false, nil)
+	if n == nil {
+		return
+	}
+	h := &hist{r: r, n: n, name: "db"}
+	h.pageSize = []uint32{512, 1024, 4096}[t.Next(3)]
+	h.jmode = []string{ModeDelete, ModeTruncate, ModePersist}[t.Next(3)]
+	h.maxPages = 10
+	r.Cfg["page_size"], r.Cfg["jmode"] = h.pageSize, h.jmode
+	if !h.openConns(1) {
+		return
+	}
+	for i := 0; i < 3 && h.ref.N() < 3; i++ {
+		h.commit(t)
+	}
+	if r.Failed() || h.ref.N() < 2 {
+		return
+	}
+	h.closeConns()
+	db := n.Store.DB(h.name)
+	if db == nil {
+		return
+	}
+	committed := h.ref
+	pos := db.Pos()
+	// the transaction that dies: rewrites some pages and grows the file
+	w := n.NewConn(h.name, h.jmode, h.pageSize)
+	if e := w.Open(); e != 0 {
+		r.Inconclusive("open writer: %v", e)
+		return
+	}
+	failFrom := t.Range(2, 3)
+	var writes int
+	n.SetPageOpHook(func(d *litefs.DB, op string, pgno uint32) error {
+		if d.Name() != h.name {
+			return nil
+		}
+		if writes++; writes >= failFrom {
+			r.Count("fault.page_write_error")
+			return syscall.EIO
+		}
+		return nil
+	})
+	var mod []uint32
+	for pg := uint32(2); pg <= committed.N(); pg++ {
+		mod = append(mod, pg)
+	}
+	res := w.WriteTx(TxProgram{Modify: mod, NewSize: committed.N() + uint32(t.Range(0, 2)), Outcome: OutCommit}, committed)
+	n.SetPageOpHook(nil)
+	w.Die()
+	if res.Outcome == OutCommit {
+		r.Count("c11.hot-journal.not-left") // (fewer page writes than the fault's ordinal)
+		return
+	}
+	if db.Pos() != pos {
+		r.Failf("c11.hot-journal-setup", "a transaction whose page writes failed moved the position %s -> %s", pos, db.Pos())
+		return
+	}
+	disk, err := ReadDiskImage(db.Path())
+	if err != nil || DiffImages(disk, committed) == "" || !journalLooksHot(db.Path()) {
+		r.Count("c11.hot-journal.not-left")
+		return // the failed transaction left nothing behind: nothing to race about
+	}
+	r.Count("c11.hot-journal.left")
+
+	s := r.NewSched()
+	installLockSeam(r, n, db, nil)
+	s.Stick = t.Range(20, 90)
+	s.MaxTick = 2 * time.Millisecond
+	r.MutexSeam = MutexYieldBuilt && t.Chance(1, 2)
+	r.AtomicSeam = MutexYieldBuilt && t.Chance(1, 2)
+	r.Cfg["mutex_seam"], r.Cfg["atomic_seam"] = r.MutexSeam, r.AtomicSeam
+	ctx := context.Background()
+	var wg sync.WaitGroup
+	nReaders := t.Range(1, 2)
+	reads := make([]int, nReaders)
+	for i := 0; i < nReaders; i++ {
+		i := i
+		k := t.Range(1, 4)
+		rc := n.NewConn(h.name, h.jmode, h.pageSize)
+		if e := rc.Open(); e != 0 {
+			r.Inconclusive("open reader: %v", e)
+			return
+		}
+		wg.Add(1)
+		s.Go(fmt.Sprintf("reader%d", i), func() {
+			defer wg.Done()
+			for j := 0; j < k && !s.stopping.Load(); j++ {
+				s.Yield(0, "op", "read")
+				im, e := rc.ReadTxRecover()
+				if e != 0 || im == nil {
+					r.Count("c11.hot-journal.reader-refused")
+					rc.UnlockAll()
+					continue
+				}
+				reads[i]++
+				r.Count("c11.hot-journal.read")
+				if d := DiffImages(im, committed); d != "" {
+					r.Failf("c11.hot-journal-reader", "a transaction died after some of its page writes (hot journal, modified database file, position still %s); a connection that followed SQLite's opening sequence (SHARED, hot-journal test, rollback if hot) while LiteFS's internal writer was trying to take its write lock read the dead transaction's pages: %s", pos, d)
+					return
+				}
+			}
+		})
+	}
+	kind := []string{"halt", "recover"}[t.Next(2)]
+	attempts := t.Range(1, 3)
+	r.Cfg["internal"] = kind
+	wg.Add(1)
+	s.Go("internal", func() {
+		defer wg.Done()
+		for j := 0; j < attempts && !s.stopping.Load(); j++ {
+			s.Yield(0, "op", kind)
+			switch kind {
+			case "halt":
+				id := int64(1000 + j)
+				if hl, err := db.AcquireHaltLock(ctx, id); err == nil && hl != nil {
+					s.Yield(0, "op", "halt-held")
+					db.ReleaseHaltLock(ctx, id)
+					r.Count("c11.hot-journal.internal-done")
+				}
+			default:
+				if err := db.Recover(ctx); err == nil {
+					r.Count("c11.hot-journal.internal-done")
+				}
+			}
+		}
+	})
+	done := make(chan struct{})
+	go func() { wg.Wait(); close(done) }()
+	finished := func() bool {
+		select {
+		case <-done:
+			return true
+		default:
+			return false
+		}
+	}
+	for steps := 0; steps < 6000 && !r.Failed(); steps++ {
+		s.Settle()
+		if finished() {
+			break
+		}
+		if !s.StepOnce(nil, true) {
+			time.Sleep(time.Millisecond)
+		}
+	}
+	s.Stop()
+	r.MutexSeam, r.AtomicSeam = false, false
+	for i := 0; i < 15000 && !finished(); i++ {
+		time.Sleep(time.Millisecond)
+		s.Settle()
+	}
+	if r.Failed() {
+		return
+	}
+	if !finished() {
+		r.Inconclusive("c11 hot journal: tasks did not finish")
+		return
+	}
+	// in the end the journal is rolled back by somebody and the file is the committed image
+	c := n.NewConn(h.name, h.jmode, h.pageSize)
+	if e := c.Open(); e == 0 {
+		if im, e := c.ReadTxRecover(); e == 0 && im != nil {
+			if d := DiffImages(im, committed); d != "" {
+				r.Failf("c11.hot-journal-reader", "after every reader and LiteFS's internal writer were done a new connection reads something else than the committed image of %s: %s", pos, d)
+			}
+		}
+		c.Close()
+	}
+	// (a connection that rolls the journal back itself rewrites the original
+	// pages: LiteFS records that as a transaction with the same checksum)
+	r.Check(db.Pos().PostApplyChecksum == pos.PostApplyChecksum, "c11.hot-journal-position", "rolling a dead transaction back changed the database's checksum: position %s -> %s", pos, db.Pos())
+	r.State("hot-journal/%s/%s/%d/%v", h.jmode, kind, nReaders, r.Cfg["mutex_seam"])
 }
